@@ -80,7 +80,7 @@ theorem guardDrop_nonKey (m : Mode) (items : List GuardItem) (pk : Bool) :
         · exact .abort
         · exact ih _
 
-theorem debugLeaf_nonKey (x : LockId) (m : Mode) (b : Bool) : OpsIn nonKeyOp (debugLeaf x m b) := by
+theorem debugLeaf_nonKey (x : LockId) (m : Mode) (b : Nat) : OpsIn nonKeyOp (debugLeaf x m b) := by
   unfold debugLeaf
   refine .op _ _ trivial (fun r => ?_)
   cases r
@@ -89,7 +89,7 @@ theorem debugLeaf_nonKey (x : LockId) (m : Mode) (b : Bool) : OpsIn nonKeyOp (de
     · refine .op _ _ (by show (_ : Nat) ≠ _; decide) (fun _ => .op _ _ trivial (fun r' => ?_))
       cases r' <;> first | exact .abort | exact .unwind _
     · refine .op _ _ trivial (fun r' => ?_)
-      cases r' <;> first | exact .done _ | exact .unwind _
+      cases r' <;> dsimp only <;> first | exact .unwind _ | (split <;> first | exact .done _ | exact .op _ _ (by show (_ : Nat) ≠ _; decide) (fun _ => .unwind _))
   · exact .done _
   · exact .unwind _
 
